@@ -27,6 +27,7 @@ type GenOpts struct {
 	MoreUnions   bool // always declare unions when there are enough productions, and prefer them as @@ targets
 	WholeBody    bool // some productions consist of exactly one modified group: ( a b )+ , { a | b } "x"
 	EOFRefs      bool // alternatives may end in an explicit EOF reference: ( ";" | EOF )
+	TokMulti     bool // C11: []lexer.Token fields may be captured repeatedly (only node positions are judged then)
 	CapTypes     bool // some string-list fields are of a type implementing participle.Capture
 	CatchAll     int  // out of 10: the root becomes ( body )? followed by a capture-everything tail, so that skipping the body still parses
 }
@@ -756,6 +757,11 @@ func (pc *prodGen) assignFields(p *Prod) {
 			}
 			if o.CapTypes && f.Kind == "strs" && r.Bool() {
 				f.Kind = "cstrs"
+			}
+			if o.TokMulti && w > 1 && r.Chance(1, 3) {
+				// a []lexer.Token field written more than once: what it finally holds is left open by the
+				// documentation (the evaluator marks the case unspecified), the node's own Tokens/Pos are not
+				f.Kind = "toks"
 			}
 		}
 		p.Fields[fi] = f
